@@ -32,6 +32,7 @@ def extra_variants():
     out.append(dict(base, name="x-extra-nics", extra="nics"))
     out.append(dict(base, name="x-routes", extra="routes"))
     out.append(dict(base, name="x-green-order", extra="green"))
+    out.append(dict(base, name="x-acl-last-slots", extra="acl"))
     return out
 
 
@@ -59,6 +60,13 @@ def build_cfg(v):
                 n["services"] = [{"type": "ntp-client", "options": {"ntp_server_ip": HE.IPS["web_server"]}},
                                  {"type": "dns-client", "options": {"dns_server": HE.IPS["backup_server"]}}]
                 n["users"] = [{"username": "u1", "password": "p1", "is_admin": True}]
+    if v.get("extra") == "acl":
+        for n in nodes:
+            if n["hostname"] == "router_1":
+                n["acl"][22] = {"action": "PERMIT", "src_port": "DNS", "dst_port": "DNS"}
+                n["acl"][23] = {"action": "DENY", "protocol": "TCP", "src_ip": HE.IPS["client_2"], "dst_ip": HE.IPS["database_server"]}
+                n["acl"][0] = {"action": "PERMIT", "src_port": "ARP", "dst_port": "ARP"}
+                n["acl"][1] = {"action": "PERMIT", "protocol": "ICMP"}
     if v.get("extra") == "green":
         g = [a for a in cfg["agents"] if a["ref"] == "green_1"][0]
         g["agent_settings"]["action_probabilities"] = {2: 0.2, 0: 0.3, 1: 0.5}
@@ -165,7 +173,7 @@ FW_LISTS = ("internal_inbound_acl", "internal_outbound_acl", "dmz_inbound_acl", 
             "external_outbound_acl")
 
 
-def check_inventory(name, cfg):
+def check_inventory(name, cfg, after_setup=False):
     """Build the game from ``cfg`` and compare. Returns (fields compared, violations)."""
     from primaite.game.game import PrimaiteGame
     from primaite.simulator.network.hardware.nodes.network.router import Router
@@ -182,6 +190,9 @@ def check_inventory(name, cfg):
             V.setdefault((clause, sig), violation(clause, sig, "scenario %s: %s: file says %r, built simulation has %r" % (name, what, want, got)))
 
     game = PrimaiteGame.from_config(copy.deepcopy(cfg))
+    if after_setup:
+        # what env.reset() does after loading: the episode starts from what the file declares
+        game.setup_for_episode(episode=1)
     net = game.simulation.network
     ncfg = cfg.get("simulation", {}).get("network", {})
     node_cfgs = list(ncfg.get("nodes", []))
@@ -195,8 +206,9 @@ def check_inventory(name, cfg):
             eq("nodes_exactly_as_declared", "node-missing", "node %s" % hn, "present", "absent")
             continue
         eq("node_type", "node-type", "%s type" % hn, nc["type"], getattr(type(node), "_discriminator", type(node).__name__))
-        eq("node_initial_state", "operating_state", "%s initial operating state" % hn, (nc.get("operating_state") or "ON").upper(),
-           node.operating_state.name)
+        if not after_setup:  # episode set-up powers every node on (the declared state is the state when loaded)
+            eq("node_initial_state", "operating_state", "%s initial operating state" % hn, (nc.get("operating_state") or "ON").upper(),
+               node.operating_state.name)
         eq("node_durations", "start_up_duration", "%s start_up_duration" % hn, int(nc.get("start_up_duration", 3)), node.config.start_up_duration)
         eq("node_durations", "shut_down_duration", "%s shut_down_duration" % hn, int(nc.get("shut_down_duration", 3)), node.config.shut_down_duration)
         if "ip_address" in nc:
@@ -443,6 +455,10 @@ def _generalise(path):
 def _inv_task(name):
     cfg = dict(all_scenarios())[name]()
     n1, v1 = check_inventory(name, cfg)
+    n3, v3 = check_inventory(name + " [after episode set-up]", cfg, after_setup=True)
+    for x in v3:
+        x["signature"] = "after-setup:" + x["signature"]
+    n1, v1 = n1 + n3, v1 + v3
     # the same inventory must be built from the same file with every mapping written in reverse key order
     n2, v2 = check_inventory(name + " [all mappings in reverse key order]", _permute(cfg, "reversed"))
     for x in v2:
